@@ -69,9 +69,11 @@ type c13Scn struct {
 	// WarmCtx (programs with commands): the Interpreter is reused after an ExecuteContext call of
 	// the same program with NoExec set (it fails at its first command), whose context is closed
 	// after the call returned; the measured run uses Execute
-	WarmCtx bool  `json:"warm_ctx,omitempty"`
-	Sched   bool  `json:"sched,omitempty"`
-	Tape    []int `json:"tape,omitempty"`
+	WarmCtx bool `json:"warm_ctx,omitempty"`
+	// WarmFailAt > 0 (with Warm): standard output of the warm-up run fails from this byte on
+	WarmFailAt int   `json:"warm_fail_at,omitempty"`
+	Sched      bool  `json:"sched,omitempty"`
+	Tape       []int `json:"tape,omitempty"`
 }
 
 type c13Entry struct {
@@ -248,8 +250,8 @@ func c13GenOps(r *core.Rand, depth int, kids string, inRule bool) []c13Op {
 			if r.Chance(1, 40) {
 				op.Big = core.Pick(r, []int{4096, 65536, 70000, 131100})
 			}
-			if kids == "none" && op.Kind == "print" && op.Big == 0 && r.Chance(1, 8) {
-				op.Kind = "print-empty"
+			if kids == "none" && op.Big == 0 && r.Chance(1, 8) {
+				op.Kind += "-empty" // print "" / printf "%s", "": nothing or just the terminator is written, the destination is opened all the same
 			}
 		case k < 56:
 			op.Kind = "close"
@@ -342,6 +344,9 @@ func (c13Engine) Gen(r *core.Rand, tier string, i int) any {
 	sc.Output = core.Pick(r, []string{"bare", "bufio", "bufio-real", "flush"})
 	sc.Warm = kids == "none" && r.Chance(1, 6)
 	sc.WarmCtx = kids != "none" && r.Chance(1, 5)
+	if sc.Warm && r.Chance(1, 3) {
+		sc.WarmFailAt = r.Range(1, 12)
+	}
 	if kids == "talkers" {
 		// A child that writes to the shared standard output while the program does (finding
 		// F-C13-1) corrupts an unsynchronised buffered writer: with a real bufio.Writer the
@@ -459,6 +464,8 @@ func (g *c13Gen) gen(ops []c13Op) string {
 			fmt.Fprintf(&sb, "print tok(%d)%s; ", id, redir)
 		case "print-empty":
 			fmt.Fprintf(&sb, "print etok(%d)%s; ", id, redir)
+		case "printf-empty":
+			fmt.Fprintf(&sb, "printf \"%%s\", etok(%d)%s; ", id, redir)
 		case "printf":
 			fmt.Fprintf(&sb, "printf \"%%s\", tok(%d)%s; ", id, redir)
 		case "close":
@@ -583,12 +590,12 @@ func (m *c13Model) startCmd(name string) string {
 // apply one started operation; complete=false for the last operation of a run that ended with an error
 func (m *c13Model) apply(idx int, e c13Entry, op *c13Op, complete bool) {
 	switch op.Kind {
-	case "print", "printf", "print-empty":
+	case "print", "printf", "print-empty", "printf-empty":
 		text := e.Tok
 		if op.Kind == "print-empty" && m.sc.OutMode != "" {
 			text = `""` // a record of one empty field
 		}
-		if op.Kind != "printf" {
+		if op.Kind != "printf" && op.Kind != "printf-empty" {
 			text += "\n"
 		}
 		text = m.nl(text)
@@ -925,7 +932,11 @@ func c13Exec(sc *c13Scn, src string, ops map[int]*c13Op, failAt int, log *core.L
 		}
 		_ = wfs.Put("recs", []byte(recs.String()))
 		warm := *cfg
-		warm.Output, warm.Error, warm.OpenFile = core.NewSimSink("warm", nil), core.NewSimSink("warmerr", nil), wfs.Open
+		wsink := core.NewSimSink("warm", nil)
+		if sc.WarmFailAt > 0 {
+			wsink.FailAt = sc.WarmFailAt
+		}
+		warm.Output, warm.Error, warm.OpenFile = wsink, core.NewSimSink("warmerr", nil), wfs.Open
 		warm.Stdin = nullFile()
 		c13cur = &c13State{ops: ops, crlf: sc.CRLF}
 		var wr execResult
@@ -985,7 +996,7 @@ func c13Exec(sc *c13Scn, src string, ops map[int]*c13Op, failAt int, log *core.L
 		// a print to standard output that started after the failing flush got the sticky error
 		for i := res.FailedAtTrace; i < len(st.trace); i++ {
 			op := ops[st.trace[i].ID]
-			if (op.Kind == "print" || op.Kind == "printf" || op.Kind == "print-empty") && (op.Redir == "" || op.Dest == "-" || op.Dest == "/dev/stdout") {
+			if (op.Kind == "print" || op.Kind == "printf" || op.Kind == "print-empty" || op.Kind == "printf-empty") && (op.Redir == "" || op.Dest == "-" || op.Dest == "/dev/stdout") {
 				res.WriteErrs++
 			}
 		}
@@ -1548,6 +1559,9 @@ func (c13Engine) Shrink(scAny any) []any {
 	}
 	if sc.WarmCtx {
 		add(func(c *c13Scn) { c.WarmCtx = false })
+	}
+	if sc.WarmFailAt > 0 {
+		add(func(c *c13Scn) { c.WarmFailAt = 0 })
 	}
 	if len(sc.Pre) > 0 {
 		add(func(c *c13Scn) { c.Pre = nil })
